@@ -24,6 +24,10 @@ from tools.vlib.vtime import VLoop
 IMPORTS = ("From Coq Require Import ZArith List Bool.\n"
            "From IPV8V Require Import lib.PyErr model.M10_reqcache.\n"
            "Import ListNotations.\nOpen Scope Z_scope.\n")
+# the same cases run through the functions regenerated from the source (gen/G10_reqcache.v)
+IMPORTS_X = ("From Coq Require Import ZArith List Bool.\n"
+             "From IPV8V Require Import lib.PyErr model.M10_reqcache model.M10_lang gen.G10_reqcache model.M10_reqcache_gen.\n"
+             "Import ListNotations.\nOpen Scope Z_scope.\n")
 
 PREFIXES = ["p", "q", "p:1", "", "circuit", "1", "p:"]
 CLASS_TAGS = {0: [0], 1: [1, 0], 2: [2, 1, 0]}     # harness classes: K1(K0), K2(K1)
@@ -824,6 +828,18 @@ def _report(ctx, cfg, ops, bad, seen_keys, origin):
         ctx.violation(key, "%s [%s; %d ops after shrinking]" % (what_m, origin, len(ops_m)), {"cfg": cfg_m, "ops": ops_m, "key": key})
 
 
+def translate(ctx):
+    """stage G: regenerate gen/G10_reqcache.v from $VERIF_REPO/ipv8/requestcache.py (fail closed)"""
+    from tools.tr import tr_reqcache, tr_expr
+    try:
+        text = tr_reqcache.write()
+        ctx.extra.setdefault("generated", {})["gen/G10_reqcache.v"] = len(text)
+        return text
+    except (tr_expr.Unsupported, Exception) as e:   # noqa
+        ctx.broke("translator tr_reqcache aborted", e)
+        return None
+
+
 def run(ctx):
     import multiprocessing
     seen_keys = set()
@@ -838,11 +854,15 @@ def run(ctx):
                 ctx.count(("corpus", fn))
                 _report(ctx, w["cfg"], w["ops"], bad, seen_keys, "corpus/%s" % fn)
     ctx.extra["corpus_replayed"] = n_corpus
-    # ---- stage P
+    # ---- stage G + P
+    xtext = translate(ctx)
     ctx.proofs()
+    xproofs = ctx.proofs(part="C10x") if xtext is not None else False
     ctx.coverage["trusted_base"] = [
         "Coq 8.16.1 kernel (coqc, vm_compute); no axioms (Print Assumptions: closed)",
         "hand model coq/model/M10_reqcache.v of RequestCache / TaskManager timeout tasks / retrieve_cache, tied by this run's correspondence",
+        "translator tools/tr/tr_reqcache.py (Python ast -> programs of model/M10_lang.v) and that language's interpreter; "
+        "register_task / cancel_pending_task / cancel_all_pending_tasks / Future methods / cache.on_timeout are primitives of it",
         "reading of CPython asyncio: a task whose wake-up is scheduled can still be cancelled; one _run_once = IterBegin..IterEnd",
         "harness tools/checks/c10.py: virtual clock, manual BaseEventLoop._run_once stepping, observation wrappers, canonicalisation",
     ]
@@ -932,6 +952,21 @@ def run(ctx):
         ctx.broke("model evaluation failed (holds)", e)
     for i in hm[:3]:
         ctx.broke("model history violates holds (contradicts theorem?)", json.dumps(meta[i]))
+    # ---- stage C4: the same observed schedules on the functions translated from the source, inside Coq
+    if xtext is not None:
+        step = 3 if ctx.quick else 4
+        xcases = cases[:len(directed())] + cases[len(directed())::step]
+        xmeta = meta[:len(directed())] + meta[len(directed())::step]
+        xm, xerrs = coqrun.eval_mismatches(IMPORTS_X, "grun_case", "obsl_eqb", xcases, os.path.join(ctx.scratch, "corrx"),
+                                           ctype="case * list obs", shard=max(100, len(xcases) // 28 + 1), jobs=14, timeout=900)
+        for e in xerrs:
+            ctx.broke("generated-model evaluation failed", e)
+        for i in sorted(xm, key=lambda i: len(json.dumps(xmeta[i])))[:8]:
+            ctx.broke("correspondence: observed history differs between the functions translated from the source and the implementation",
+                      json.dumps({"cfg": xmeta[i][0], "ops": xmeta[i][1]}))
+        ctx.extra["coq_cases_generated_model"] = len(xcases)
+        ctx.extra["correspondence_mismatches_generated_model"] = len(xm)
+        ctx.coverage["traces_validated_against_impl"] += len(xcases) - len(xm)
     ctx.extra["total_before_finish_wall_s"] = round(_time.time() - t_start, 1)
     ctx.coverage["traces_validated_against_impl"] += len(cases) - len(mism)
     ctx.extra["coq_cases"] = len(cases)
